@@ -230,7 +230,8 @@ def prepare_df_for_events(df):
 
     df_events = pd.concat([df, df_copy], axis=0)
     df_events = df_events.sort_values(['TRACK', 'OFFSET', 'EVENT_TYPE'])
-    df_events = df_events.groupby('TRACK', group_keys=False).apply(add_delta)
+    # Time since the previous event of the same track (the first event of a track counts from 0)
+    df_events['DELTA'] = df_events.groupby('TRACK')['OFFSET'].diff().fillna(df_events['OFFSET'])
     df_events['PITCH'] = df_events['PITCH'] + 60
 
     return df_events[['EVENT_TYPE', 'OFFSET', 'PITCH', 'VELOCITY', 'DURATION', 'DELTA', 'TRACK', 'TEMPO', 'PEDAL']]
